@@ -1390,7 +1390,9 @@ CONFIG["C04"] = dict(
                "ANY inst without SRV entry, A+AAAA of the SRV target without address entry, nothing otherwise - and queues try "
                "k+1 500 ms ahead iff k < 3), resolved_when_complete / resolvedComplete_partial (an update touching an instance "
                "whose PTR, SRV and address are usable emits ServiceResolved on the browse channel in that very step), touched_by "
-               "(which records count as an update). The completeness invariant over histories is stated "
+               "(which records count as an update), followup_runs_when_due (a queued Resolve(inst,k) that is due is run in the iteration, "
+               "on the cache of the re-run phase: missing question out, try k+1 queued 500 ms ahead while k < 3), "
+               "followups_at_500_1000_1500 (PTR only: ANY inst at n, n+500, n+1000). The completeness invariant over histories is stated "
                "(ResolvedComplete_full) and REFUTED on a concrete history (resolvedComplete_full_false: an address first seen as "
                "a goodbye and re-announced within the second only refreshes the cached entry, nothing re-resolves the "
                "instance) - the same history reproduces on the real daemon (corpus-candidates/C04). The model is compared "
@@ -1400,7 +1402,8 @@ CONFIG["C04"] = dict(
     level_note=_CLIENT_NOTE,
     partial=["ResolvedComplete is proved as a step contract only; as an invariant it is false of model and code (re-delivered, "
              "not new, records are not updates): resolvedComplete_full_false",
-             "the +500/+1000/+1500 schedule is a step contract plus a `decide` example; the timely-scheduler composition is C12's"],
+             "the +500/+1000/+1500 schedule is composed in Lean for iterations that run at the due instants "
+             "(followup_runs_when_due, followups_at_500_1000_1500); that such iterations exist is C12's wake_never_late_run"],
     assumptions=_CLIENT_ASSUME,
 )
 
@@ -1417,12 +1420,14 @@ CONFIG["C05"] = dict(
                "of its host), not_evicted_while_live / not_unresolved_while_live (the contrapositives: never while PTR, SRV and "
                "address are live), goodbye_expiry (a goodbye sets the cached copy's expiry to exactly t+1000), removed_on_time "
                "(the eviction step of an iteration at now >= expiry sends ServiceRemoved on the browse channel) and "
-               "not_removed_before, verify_deadline. The model is compared exactly with the real daemon on every generated "
+               "not_removed_before, verify_deadline; removed_quiet_full is refuted (removed_quiet_full_false). The model is compared exactly with the real daemon on every generated "
                "history (goodbyes of all or part of the set, duplicated, re-announced within the second, silent expiry, verify "
                "1..10000 ms); the monitor ok_C05 derives due times from the delivered TTLs on the real trace.",
     level_note=_CLIENT_NOTE,
-    partial=["removed_quiet (no ServiceResolved after ServiceRemoved without new records) is not proved: with several SRV records "
-             "of one instance the first usable SRV can change by expiry alone",
+    partial=["removed_quiet_full (no ServiceResolved after ServiceRemoved without new records) is FALSE of model and code: "
+             "removed_quiet_full_false, witness twoSrvAnnounce (two shared SRV records of one instance: resolve_service_from_cache "
+             "looks at the first usable SRV only - ServiceRemoved while the second SRV and its address are live, and ServiceResolved "
+             "later without any new record); reproduced on the real daemon (corpus-candidates/C05); removed_quiet_partial is what holds",
              "timeliness is a step contract (the iteration at the expiry instant exists by C12's wake-up theorems, composed in "
              "the monitor, not in Lean)"],
     assumptions=_CLIENT_ASSUME,
